@@ -590,3 +590,81 @@ pub proof fn lemma_drc_final<P: Prefix, T>(m0: PrefixMap<P, T>, cur: PrefixMap<P
     }
     lemma_content_restrict(t0, l0, t, l1, x);
 }
+
+// ---- remove_children: from the selector q to the sub-trie that is detached ----
+
+/// live nodes covered by q are exactly the live nodes at or below c, the child of idx that q would adopt
+pub proof fn lemma_region_same<P: Prefix, T>(t: Seq<Node<P, T>>, live: ISet<int>, idx: int, q: Seq<bool>, n: int)
+    requires
+        twf_live(t, live), live.contains(idx), pre(kb(t, idx), q), !(kb(t, idx) =~= q), live.contains(n),
+        chd(t, idx, next_bit(kb(t, idx), q)).is_some(),
+        pre(q, kb(t, chd(t, idx, next_bit(kb(t, idx), q)).unwrap() as int)),
+    ensures pre(q, kb(t, n)) == pre(kb(t, chd(t, idx, next_bit(kb(t, idx), q)).unwrap() as int), kb(t, n))
+{
+    let c = chd(t, idx, next_bit(kb(t, idx), q)).unwrap() as int;
+    if pre(kb(t, c), kb(t, n)) { lemma_pre_trans(q, kb(t, c), kb(t, n)); }
+    if pre(q, kb(t, n)) {
+        assert(spre(kb(t, idx), kb(t, n)));
+        lemma_desc(t, live, idx, n);
+        assert(kb(t, n)[kb(t, idx).len() as int] == q[kb(t, idx).len() as int]);
+    }
+}
+
+/// NewLeaf / NewBranch: no live node is covered by q
+pub proof fn lemma_region_empty<P: Prefix, T>(t: Seq<Node<P, T>>, live: ISet<int>, idx: int, q: Seq<bool>, n: int)
+    requires
+        twf_live(t, live), live.contains(idx), pre(kb(t, idx), q), !(kb(t, idx) =~= q), live.contains(n),
+        chd(t, idx, next_bit(kb(t, idx), q)).is_none()
+            || (!pre(q, kb(t, chd(t, idx, next_bit(kb(t, idx), q)).unwrap() as int)) && !pre(kb(t, chd(t, idx, next_bit(kb(t, idx), q)).unwrap() as int), q)),
+    ensures !pre(q, kb(t, n))
+{
+    if pre(q, kb(t, n)) {
+        assert(spre(kb(t, idx), kb(t, n)));
+        lemma_desc(t, live, idx, n);
+        assert(kb(t, n)[kb(t, idx).len() as int] == q[kb(t, idx).len() as int]);
+        let c = chd(t, idx, next_bit(kb(t, idx), q)).unwrap() as int;
+        lemma_pre_comparable(q, kb(t, c), kb(t, n));
+    }
+}
+
+pub proof fn lemma_rc_nothing<P: Prefix, T>(m0: PrefixMap<P, T>, idx: int, q: Seq<bool>)
+    requires
+        m0.wf_shape(), m0.live().contains(idx), pre(kb(m0.tab(), idx), q), !(kb(m0.tab(), idx) =~= q),
+        chd(m0.tab(), idx, next_bit(kb(m0.tab(), idx), q)).is_none()
+            || (!pre(q, kb(m0.tab(), chd(m0.tab(), idx, next_bit(kb(m0.tab(), idx), q)).unwrap() as int))
+                && !pre(kb(m0.tab(), chd(m0.tab(), idx, next_bit(kb(m0.tab(), idx), q)).unwrap() as int), q)),
+    ensures rc_content(m0.content(), m0.content(), q)
+{
+    let t = m0.tab(); let l = m0.live();
+    assert forall|k: Seq<bool>| (#[trigger] m0.content().dom().contains(k) == (m0.content().dom().contains(k) && !pre(q, k))) by {
+        lemma_content_dom(t, l, k);
+        if has_key(t, l, k) {
+            let n = node_of(t, l, k);
+            lemma_region_empty(t, l, idx, q, n);
+        }
+    }
+}
+
+/// NewChild: whatever map results from removing region(kb c) is the map with region(q) removed
+pub proof fn lemma_rc_child<P: Prefix, T>(m0: PrefixMap<P, T>, idx: int, q: Seq<bool>)
+    requires
+        m0.wf_shape(), m0.live().contains(idx), pre(kb(m0.tab(), idx), q), !(kb(m0.tab(), idx) =~= q),
+        chd(m0.tab(), idx, next_bit(kb(m0.tab(), idx), q)).is_some(),
+        pre(q, kb(m0.tab(), chd(m0.tab(), idx, next_bit(kb(m0.tab(), idx), q)).unwrap() as int)),
+    ensures
+        forall|c1: IMap<Seq<bool>, (P, T)>| #[trigger] rc_content(m0.content(), c1, kb(m0.tab(), chd(m0.tab(), idx, next_bit(kb(m0.tab(), idx), q)).unwrap() as int))
+            ==> rc_content(m0.content(), c1, q)
+{
+    let t = m0.tab(); let l = m0.live();
+    let x = kb(t, chd(t, idx, next_bit(kb(t, idx), q)).unwrap() as int);
+    assert forall|c1: IMap<Seq<bool>, (P, T)>| #[trigger] rc_content(m0.content(), c1, x) implies rc_content(m0.content(), c1, q) by {
+        assert forall|k: Seq<bool>| (#[trigger] c1.dom().contains(k) == (m0.content().dom().contains(k) && !pre(q, k)))
+            && (c1.dom().contains(k) ==> c1[k] == m0.content()[k]) by {
+            lemma_content_dom(t, l, k);
+            if has_key(t, l, k) {
+                let n = node_of(t, l, k);
+                lemma_region_same(t, l, idx, q, n);
+            }
+        }
+    }
+}
